@@ -94,7 +94,11 @@ def tmodule_control_table(ctx: Ctx, pid: str, want_enter: bool, want_mirror: boo
             detail = f"main: {[_frame_kind(f) for f in main]} avoiding: {[_frame_kind(f) for f in avoid]} other: {[_frame_kind(f) for f in other]}"
             params = [("p", fn.fi.qualname, k, a.arg) for k, a in enumerate(fn.fi.node.args.args)]
             if want_av is None:
+                # the condition handed in reaches the main module unchanged
                 ok = ok and not avoid
+                if ok and main[0][0] in ("if", "avoid", "elif"):
+                    ok = all(_is_param_or_star(x, fn) for x in _frame_args(main[0])) and bool(_frame_args(main[0]))
+                    detail += f" args main={[tstr(x) for x in _frame_args(main[0])]}"
             elif want_av == "If(ongoing)":
                 ok = ok and len(avoid) == 1 and avoid[0][0] == "if" and pmatch("self.fsm.ongoing(Q_n)", avoid[0][1]) is not None
                 if ok:
